@@ -3837,3 +3837,63 @@ def gen_CppNumeric(repo):
          "def toleranceTokens : List (String × String) := %s\n" % lean_list(["(%s, %s)" % (lean_str(f), lean_str(t)) for f, t in narrow]),
          "end Strengths.Gen.CppNumeric"]
     return "\n".join(L) + "\n"
+
+
+# =============================================================================================
+# PyNumeric: where the Python package could leave double precision / exactness (the model computes with exact
+# rationals; text goes through repr): rounding and tolerance calls, narrow dtypes, `astype`, limited-digit format
+# specifications, floor division — one inventory per source file
+# =============================================================================================
+PYNUMERIC_FILES = ["units.py", "constants.py", "value_processing.py", "rdnetwork.py", "rdgridspace.py", "rdgraphspace.py", "rdspace.py",
+                   "rdsystem.py", "rdscript.py", "rdoutput.py", "librdengine.py", "kinetics.py", "simulate.py", "coarsegrain.py",
+                   "engine_collection.py", "filepath.py", "text_array_rw.py"]
+
+
+@group
+def gen_PyNumeric(repo):
+    calls = {"round", "np.round", "np.around", "numpy.round", "np.isclose", "np.allclose", "math.isclose", "np.floor", "np.ceil",
+             "math.floor", "math.ceil", "np.trunc", "math.trunc", "np.rint", "np.fix", "np.nextafter", "np.spacing", "np.finfo"}
+    narrow = re.compile(r"(float16|float32|single|half|int8|int16|int32|uint8|uint16|uint32|uint64|c_float|c_short|c_long|c_int64|c_uint|longdouble|float128)$")
+    fmt = re.compile(r"%[-+0 #]*\d*(?:\.\d+)?[eEfFgGdi]|\{[^{}]*:[^{}]*\}")
+    L = ["namespace Strengths.Gen.PyNumeric\n",
+         "/-- per source file: (kind, normalised text) of every rounding / tolerance call, `dtype=` value, narrow numeric type name,\n"
+         "`astype`, limited-digit format specification, floor division -/"]
+    names = []
+    for rel in PYNUMERIC_FILES:
+        src = PySrc(repo, "src/strengths/" + rel)
+        inv = []
+        for node in ast.walk(src.tree):
+            if isinstance(node, ast.Call):
+                f = _norm(src, node.func)
+                if f in calls:
+                    inv.append((node.lineno, node.col_offset, "call", _norm(src, node)))
+                if isinstance(node.func, ast.Attribute) and node.func.attr in ("astype", "view", "round", "tobytes"):
+                    if node.func.attr != "tobytes":
+                        inv.append((node.lineno, node.col_offset, node.func.attr, _norm(src, node)))
+                if isinstance(node.func, ast.Attribute) and node.func.attr == "format":
+                    inv.append((node.lineno, node.col_offset, "format", _norm(src, node.func.value)))
+                for kw in node.keywords:
+                    if kw.arg == "dtype":
+                        inv.append((node.lineno, node.col_offset, "dtype", _norm(src, kw.value)))
+            elif isinstance(node, ast.Attribute) and narrow.search(node.attr):
+                inv.append((node.lineno, node.col_offset, "type", _norm(src, node)))
+            elif isinstance(node, ast.Name) and narrow.search(node.id):
+                inv.append((node.lineno, node.col_offset, "type", node.id))
+            elif isinstance(node, ast.Constant) and isinstance(node.value, str) and node.value in ("f", "f4", "f2", "e", "i4", "i2", "i1", "u1", "<f4", "float32", "int32", "single"):
+                inv.append((node.lineno, node.col_offset, "type", repr(node.value)))
+            elif isinstance(node, ast.BinOp) and isinstance(node.op, ast.Mod) and isinstance(node.left, ast.Constant) \
+                    and isinstance(node.left.value, str) and fmt.search(node.left.value):
+                inv.append((node.lineno, node.col_offset, "format", node.left.value))
+            elif isinstance(node, ast.FormattedValue) and node.format_spec is not None:
+                inv.append((node.lineno, node.col_offset, "format", _norm(src, node)))
+            elif isinstance(node, ast.BinOp) and isinstance(node.op, ast.FloorDiv):
+                inv.append((node.lineno, node.col_offset, "floordiv", _norm(src, node)))
+            elif isinstance(node, ast.AugAssign) and isinstance(node.op, ast.FloorDiv):
+                inv.append((node.lineno, node.col_offset, "floordiv", _norm(src, node)))
+        inv.sort()
+        nm = "inv_" + rel[:-3]
+        names.append((rel, nm))
+        L.append("def %s : List (String × String) := %s" % (nm, lean_list(["(%s, %s)" % (lean_str(k), lean_str(t)) for _, _, k, t in inv])))
+    L.append("\ndef files : List String := %s" % lean_list([lean_str(r) for r, _ in names]))
+    L.append("\nend Strengths.Gen.PyNumeric")
+    return "\n".join(L) + "\n"
